@@ -1,4 +1,5 @@
 import Model.Engine.Skel
+import Model.Engine.SkelAuto
 /-! Well-formedness of control paths of the commander skeleton: the clauses (C1) as executable checks.
 
 Almost every clause has the shape "an item of kind `A` only occurs while *armed*: after an item of kind `B` with no item
@@ -148,6 +149,20 @@ def publishFrom (o : String) : Item → Bool
     | none => false
   | _ => false
 
+/-- what each entry point answers with: a field of the payload of the log it was answered with -/
+def answerShape : String → Option String
+  | "CreateTransaction" => some ".Data.(ledger.NewTransactionLogPayload).Transaction"
+  | "RevertTransaction" => some ".Data.(ledger.RevertedTransactionLogPayload).RevertTransaction"
+  | _ => none
+
+def isAnswer : Item → Bool
+  | .act (.answer _) _ _ => true
+  | _ => false
+
+def answerFrom (ep o : String) : Item → Bool
+  | .act (.answer v) _ _ => (match answerShape ep with | some path => v = Prov.of o path | none => false)
+  | _ => false
+
 def isPublishRevert : Item → Bool
   | .act (.publish "RevertedTransaction" _) _ _ => true
   | _ => false
@@ -224,6 +239,10 @@ def clauses (ep : String) : List (String × (Path → Bool)) := [
   ("revertIdCompared", sinceOk isPublishRevert (isChoice "payload-id=lookup-id" true) never false),
   ("revertedIsLookedUp", sinceOk isPublishRevert (Item.isOk (fun a => match a with | .readTx _ => true | _ => false)) never false),
   ("publishOnce", sinceOk isPublish never isPublish true),
+  ("answerFromReturnedLog", fun q => q.all (fun x => !isAnswer x || answerFrom ep "chained" x || answerFrom ep "ikRead" x || answerFrom ep "preview" x)),
+  ("answerAfterDurable", sinceOk (answerFrom ep "chained") isWaitPersisted isAppend false),
+  ("answerPreviewOnlyDry", sinceOk (answerFrom ep "preview") (isChoice "dry" true) never false),
+  ("answerKindChecked", sinceOk isAnswer (isChoice "payload-kind-ok" true) never false),
   -- (vii) after the commit the request waits
   ("noErrorBetweenCommitAndWait", sinceOk (orB isErrFin isPanic) isWaitPersisted isAppend true),
   ("noReturnBetweenCommitAndWait", sinceOk isFin isWaitPersisted isAppend true),
@@ -235,6 +254,8 @@ def clauses (ep : String) : List (String × (Path → Bool)) := [
   ("mutexReleased", fun q => sinceOk isMuLock isMuUnlock never false q.reverse),
   ("ends", fun q => (match q.getLast? with | some x => isFin x | none => false) || q.any isPanic),
   ("panicEnds", sinceOk isDirectOrFin never isPanic true),
+  -- what the refinement proofs need, as automata (Model/Engine/SkelAuto.lean)
+  ("automaton:chain", fun q => (ChainRef.crun .out0 q).isSome),
   -- (ix) the key is recorded on the log
   ("ikRecorded", fun q => !chose q "ik≠''" true || sinceOk isChain isSetIk never false q)
 ]
